@@ -19,11 +19,11 @@ RULE = ('(anomaly) clean streams of 2..20 frames with ONE anomaly injected at ev
 ASSUME = []
 
 KINDS = ['wrong_seq', 'cf_idle', 'fc_idle', 'sf_interrupt', 'ff_interrupt', 'ff_too_long', 'undecodable', 'missing_escape',
-         'bad_ff_rxdl', 'changing_rxdl', 'timeout']
+         'bad_ff_rxdl', 'changing_rxdl', 'changing_rxdl_up', 'timeout']
 EXPECT = {'wrong_seq': 'WrongSequenceNumberError', 'cf_idle': 'UnexpectedConsecutiveFrameError', 'fc_idle': 'UnexpectedFlowControlError',
           'sf_interrupt': 'ReceptionInterruptedWithSingleFrameError', 'ff_interrupt': 'ReceptionInterruptedWithFirstFrameError',
           'ff_too_long': 'FrameTooLongError', 'undecodable': 'InvalidCanDataError', 'missing_escape': 'MissingEscapeSequenceError',
-          'bad_ff_rxdl': 'InvalidCanFdFirstFrameRXDL', 'changing_rxdl': 'ChangingInvalidRXDLError', 'timeout': 'ConsecutiveFrameTimeoutError'}
+          'bad_ff_rxdl': 'InvalidCanFdFirstFrameRXDL', 'changing_rxdl': 'ChangingInvalidRXDLError', 'changing_rxdl_up': 'ChangingInvalidRXDLError', 'timeout': 'ConsecutiveFrameTimeoutError'}
 
 
 def anomaly_case(rng, kind, pos, inst, frames, payload, tx_dl):
@@ -67,6 +67,10 @@ def anomaly_case(rng, kind, pos, inst, frames, payload, tx_dl):
     elif kind == 'changing_rxdl':
         # a consecutive frame shorter than RX_DL that does not complete the message
         ops.append(R(pfx + bytes([0x20 | (pos & 0xF)]) + bytes(2)) if tx_dl > 8 else R(pfx + bytes([0x20 | (pos & 0xF)])))
+    elif kind == 'changing_rxdl_up':
+        # the expected consecutive frame in a CAN frame of the next larger size, which still cannot hold the rest of the message
+        big = {8: 12, 12: 16, 16: 20, 20: 24, 24: 32, 32: 48, 48: 64}[tx_dl]
+        ops.append(R(pfx + bytes([0x20 | (pos & 0xF)]) + bytes(rng.getrandbits(8) for _ in range(big - len(pfx) - 1))))
     elif kind == 'timeout':
         ops.append([0, 'tick', p['rx_consecutive_frame_timeout'] * 10**6 + rng.choice([1, 1000, 10**6])])
     step()
@@ -77,7 +81,7 @@ def anomaly_case(rng, kind, pos, inst, frames, payload, tx_dl):
 def gen_anomaly_cases(rng, quick):
     a, _ = rand_inst_pair(rng)
     n = rng.choice([8, 9, 20, 30, 60, rng.randint(8, 120)])
-    tx_dl = rng.choice([8, 8, 12, 64])
+    tx_dl = rng.choice([8, 8, 12, 64, 16, 48])
     p = {'blocksize': rng.choice([0, 1, 2, 5]), 'max_frame_size': rng.choice([max(n, 30), 200, 4095]), 'stmin': 0,
          'rx_consecutive_frame_timeout': rng.choice([2, 100, 1000])}
     inst = dict(a, params=p)
@@ -98,6 +102,13 @@ def gen_anomaly_cases(rng, quick):
             cfc = tx_dl - 1 - len(pfx)
             # only where more than 8 bytes are still to be received (otherwise a short frame legally completes the message)
             positions = [q for q in positions if n - (ffc + (q - 1) * cfc) > 8]
+        if kind == 'changing_rxdl_up':
+            if tx_dl == 64:
+                continue
+            big = {8: 12, 12: 16, 16: 20, 20: 24, 24: 32, 32: 48, 48: 64}[tx_dl]
+            ffc = tx_dl - 2 - len(pfx)
+            cfc = tx_dl - 1 - len(pfx)
+            positions = [q for q in positions if n - (ffc + (q - 1) * cfc) > big]
         for pos in positions:
             ops, mark, mark2, dexp, newp = anomaly_case(rng, kind, pos, inst, frames, payload, tx_dl)
             # then a clean message must be received intact
@@ -132,7 +143,7 @@ def oracle_anomaly(case, lines, insts):
             fails.append(('C06:overflow-answer', 'too long First Frame answered by %d Overflow flow controls' % len(ov)))
     delivered = [e[5:] for l in lines for e in split_line(l)[0] if e.startswith('recv:') and e != 'recv:none']
     want = case['expect_delivered']
-    if kind in ('changing_rxdl', 'missing_escape', 'fc_idle', 'cf_idle') :
+    if kind in ('changing_rxdl', 'changing_rxdl_up', 'missing_escape', 'fc_idle', 'cf_idle') :
         # these are ignored frames: the interrupted message may still be pending, nothing of it may be delivered early
         pass
     if case['payload'] in delivered:
@@ -140,7 +151,7 @@ def oracle_anomaly(case, lines, insts):
     for d in delivered:
         if d not in want:
             fails.append(('C06:partial-or-foreign-delivery', 'delivered %s... not among the expected payloads' % d[:24]))
-    if delivered[-1:] != want[-1:] and not (kind in ('changing_rxdl', 'missing_escape') or ok_special):
+    if delivered[-1:] != want[-1:] and not (kind in ('changing_rxdl', 'changing_rxdl_up', 'missing_escape') or ok_special):
         fails.append(('C06:receiver-poisoned', 'the clean message after the anomaly was not delivered intact (got %d payloads)' % len(delivered)))
     if [d for d in delivered if d in want] != [w for w in want if w in delivered] :
         fails.append(('C06:order', 'deliveries out of order'))
